@@ -480,6 +480,7 @@ Proof.
     change 1%nat with (length [b0]). rewrite sub_splice_same by (cbn [length]; lia). exact Ea.
   - (* TString *)
     destruct k; try (split; [exact Hb|split; [exact Hinv|exact Hcl]]).
+    destruct (is_chararr n v); [split; [exact Hb|split; [exact Hinv|exact Hcl]]|].
     destruct (string_validate_one n v) eqn:Ev; [split; [exact Hb|split; [exact Hinv|exact Hcl]]|].
     unfold string_validate_one in Ev. destruct v; try discriminate Ev. cbn [encode_ascii].
     unfold guard_string_len in Ev. destruct (Z.of_nat n - 1 <? Z.of_nat (length cs)) eqn:El; [discriminate|].
